@@ -228,7 +228,9 @@ def run(R):
                                  ('cancel_group', 'commit1', 'schedule', 'complete')],
                      workers=int(os.environ.get('VERIF_WORKERS', '12')))
     from props import _sqlcommon as sc_
-    sc_.stale_pass(R, 'C01', asserts, classify, seqs=sc_.STALE[:1] if R.tier == 'quick' else sc_.STALE)
+    if not quick:
+        # (in quick the counter recounts make this query time out; the stale-attempt histories are decided there by C04/C10/C39)
+        sc_.stale_pass(R, 'C01', asserts, classify)
 
 
 DEEP = [
